@@ -44,6 +44,7 @@ type Env struct {
 	S, T  string
 	A, A2 []int
 	FA    []float64
+	NN    [][]int
 	SA    []string
 	AA    []interface{}
 	OS    []*Obj
@@ -123,6 +124,7 @@ var Domains = map[string]Domain{
 	"A":  {c([]int{1, 2, 3}), c([]int{}), c([]int{1}), c([]int{3, 1, 0})},
 	"A2": {c([]int{2, 0}), c([]int(nil))},
 	"FA": {c([]float64{0.5, 1.5, 2, 7.5}), c([]float64{})},
+	"NN": {c([][]int{{1, 2, 3}, {0}, {}, {2, 2}}), c([][]int{})},
 	"SA": {c([]string{"a", "b"}), c([]string{}), c([]string{"ab"})},
 	"AA": {c([]interface{}{1, "a", nil}), c([]interface{}{}), c([]interface{}{2.5, true})},
 	"OS": {func(l *Log) interface{} {
@@ -205,6 +207,8 @@ func Make(v Val) *Env {
 			e.A2 = val.([]int)
 		case "FA":
 			e.FA = val.([]float64)
+		case "NN":
+			e.NN = val.([][]int)
 		case "SA":
 			e.SA = val.([]string)
 		case "AA":
